@@ -104,6 +104,15 @@ impl NameIter {
             forall|n: u64| #[trigger] self.ids@.contains(n) ==> consumed_into(f, n, r.out@),
     { unimplemented!() }
 }
+impl NameIter {
+    // Iterator::map_while(f): f is called on the elements in order until it returns None for the first time; the Some results up to
+    // there are what comes out - so, unlike filter_map, nothing is promised about the elements after that point
+    #[verifier::external_body]
+    pub fn map_while<'a, F: Fn(&Name) -> Option<Update<'a>>>(self, f: F) -> (r: FilterMapped<'a>)
+        requires forall|n: u64| self.ids@.contains(n) ==> #[trigger] f.requires((&Name { id: n },)),
+        ensures forall|j: int| 0 <= j < r.out@.len() ==> produced_by(f, self.ids@, #[trigger] r.out@[j]),
+    { unimplemented!() }
+}
 impl<'a> FilterMapped<'a> {
     #[verifier::external_body]
     pub fn collect(self) -> (r: Vec<Update<'a>>) ensures r@ == self.out@ { unimplemented!() }
@@ -120,6 +129,11 @@ spec fn explained<'a>(ev: Map<u64, Evaluated>, inst: Map<u64, Installed>, u: Upd
 spec fn deletes_unmanaged<'a>(ev: Map<u64, Evaluated>, inst: Map<u64, Installed>, out: Seq<Update<'a>>) -> bool {
     forall|n: u64| #[trigger] inst.contains_key(n) && !ev.contains_key(n) ==> out.contains(Update::Delete { name: Name { id: n } })
 }
+// completeness for updates: every candidate that was evaluated (has ranges) gets its update, whatever happened to the others
+spec fn is_update_for<'a>(u: Update<'a>, n: u64) -> bool { u matches Update::Update { name, .. } && name.id == n }
+spec fn updates_evaluated<'a>(ev: Map<u64, Evaluated>, out: Seq<Update<'a>>) -> bool {
+    forall|n: u64| #[trigger] ev.contains_key(n) && ev[n].ranges is Some ==> exists|j: int| 0 <= j < out.len() && is_update_for(#[trigger] out[j], n)
+}
 spec fn all_explained<'a>(ev: Map<u64, Evaluated>, inst: Map<u64, Installed>, out: Seq<Update<'a>>) -> bool {
     forall|j: int| 0 <= j < out.len() ==> explained(ev, inst, #[trigger] out[j])
 }
@@ -131,6 +145,7 @@ impl Policies<Evaluated> {
         ensures
             deletes_unmanaged(self.map.m@, installed.map.m@, res.inner@),                     // OBL:C01.compare.every_unmanaged_installed_policy_is_deleted
             all_explained(self.map.m@, installed.map.m@, res.inner@),                         // OBL:C01+C03.compare.nothing_but_the_prescribed_updates
+            updates_evaluated(self.map.m@, res.inner@),                                       // OBL:C15+C01.compare.every_evaluated_policy_is_updated
 //@closure 1
                 -> (r: Option<Update<'a>>)
                 requires self.map.m@.contains_key(name.id) || installed.map.m@.contains_key(name.id),
